@@ -205,7 +205,10 @@ class _Tracker:
                 pk = self.discr_of[dl]
                 hk = self.holder_of(hs, pk)
                 if hk in ('res', 'cf'):
+                    explicit = {lab for lab, _t in body.edges(bb) if lab != 'otherwise'}
                     for label, tgt in body.edges(bb):
+                        if label == 'otherwise' and explicit == {1}:
+                            label = 0       # two-variant enum: everything but Err/Break is Ok/Continue
                         if label == 0:
                             # Ok / Continue: obligation discharged on this edge
                             rest = frozenset(x for x in hs if x[0] != pk)
